@@ -72,6 +72,8 @@ class Builder:
         self.loop_renders_exp = {}  # id(loop node) -> an append inside it renders the exponent
         self.append_exprs = []  # (statement, appended expression, roles)
         self._loop_stack = []
+        self.exp_aliases = set()
+        self.rep_aliases = set()
         self.append_states = {}  # id(append statement) -> abstract states reaching it
         self._counter = None
         self._find_acc()
@@ -138,6 +140,11 @@ class Builder:
                 else:
                     self.taint[name] = self.taint.get(name, set()) | self._roles(value)
                     self.local_values.setdefault(name, []).append(value)
+                    # a plain copy of a loop variable plays that variable's role (`exp = exponent_of_entry`)
+                    if isinstance(value, ast.Name) and self._is_exp(value.id):
+                        self.exp_aliases.add(name)
+                    elif isinstance(value, ast.Name) and self._is_rep(value.id):
+                        self.rep_aliases.add(name)
             return states
         if isinstance(node, ast.AugAssign):
             if isinstance(node.target, ast.Name) and node.target.id in self.family:
@@ -287,11 +294,11 @@ class Builder:
 
     def _is_exp(self, name):
         lv = getattr(self, "_loop_vars", [])
-        return len(lv) >= 2 and name == lv[-1]
+        return (len(lv) >= 2 and name == lv[-1]) or name in self.exp_aliases
 
     def _is_rep(self, name):
         lv = getattr(self, "_loop_vars", [])
-        return bool(lv) and name in lv[:-1] if len(lv) >= 2 else name in lv
+        return (bool(lv) and name in lv[:-1] if len(lv) >= 2 else name in lv) or name in self.rep_aliases
 
     @staticmethod
     def _sign_truth(sign, op, c):
